@@ -165,6 +165,8 @@ deriving Repr, BEq, DecidableEq
 structure TableOpts where
   /-- index into `Gen.tableBoxes` (the box constants of rich/box.py); `none` = `box=None` -/
   box : Option Nat := none
+  /-- `safe_box` (`None` = the console's) -/
+  safeBox : Option Bool := none
   showHeader : Bool := true
   showFooter : Bool := false
   showEdge : Bool := true
@@ -203,6 +205,12 @@ def TableOpts.skel (o : TableOpts) : Table :=
     padding := ((o.padding.top : Int), (o.padding.right : Int), (o.padding.bottom : Int), (o.padding.left : Int)),
     padEdge := o.padEdge, collapsePadding := o.collapsePadding, expandFlag := o.expand,
     width := o.width.map Int.ofNat, minWidth := o.minWidth.map Int.ofNat, title := none, caption := none }
+
+/-- `self.box.substitute(options, safe=pick_bool(self.safe_box, console.safe_box))` (table.py `_render`): the legacy-Windows
+and ASCII-only replacements of `Box.substitute` (modelled by C08 on the indices of `Gen.boxes`, which lists the boxes of
+rich/box.py in the same source order as `Gen.tableBoxes`). -/
+def TableOpts.subst (env : Env) (o : TableOpts) : TableOpts :=
+  { o with box := o.box.map (substituteBox env (o.safeBox.getD env.safeBox)) }
 
 def dfltCh : Ch := { measure := fun _ => ⟨0, 0⟩, render := fun _ => [] }
 
@@ -375,7 +383,8 @@ def columnsConsole (cfg : Cfg) (o : ColsOpts) (opts : Opts) (items : List Ch) (w
         | none => blank
         | some i => wrap (items.getD i dfltCh)
       let cols : List ColS := (List.range lay.columnCount).map (fun j =>
-        { o := {}, header := blank, footer := blank, cells := lay.rows.map (fun row => cell (row.getD j none)) })
+        { o := { width := o.lay.width.map Int.toNat }, header := blank, footer := blank,
+          cells := lay.rows.map (fun row => cell (row.getD j none)) })
       tableConsole cfg (o.grid p) opts cols w
 
 /-! ## The renderable trees -/
@@ -432,7 +441,7 @@ def measure (cfg : Cfg) : R → Nat → Measurement
   | .rule _, w => Measurement.getPost (w : Int) none
   | .bar o, w => Measurement.getPost (w : Int) (some (barRichMeasure o.width (w : Int)))
   | .progressBar o, w => Measurement.getPost (w : Int) (some (barRichMeasure o.width (w : Int)))
-  | .table o cols, w => tableMeasure cfg o (colsM cfg cols) w
+  | .table o cols, w => tableMeasure cfg (o.subst cfg.env) (colsM cfg cols) w
   | .columns _ _, w => Measurement.getPost (w : Int) none
   | .tree root, w => Measurement.getPost (w : Int) (some (treeRichMeasure (nodeM cfg root) (w : Int)))
 def measureL (cfg : Cfg) : List R → Nat → List Measurement
@@ -474,7 +483,7 @@ def render (cfg : Cfg) : R → Opts → Nat → List Seg
   | .rule ro, o, w => ruleConsoleL cfg ro o w
   | .bar bo, _, w => barConsole (barInit bo) (w : Int)
   | .progressBar po, _, w => progressConsole cfg.env po (w : Int)
-  | .table to cols, o, w => tableConsole cfg to o (colsR cfg cols) w
+  | .table to cols, o, w => tableConsole cfg (to.subst cfg.env) o (colsR cfg cols) w
   | .columns co items, o, w => columnsConsole cfg co o (chsR cfg items ({} : ColOpts).cellOpts) w
   | .tree root, o, w => treeConsole cfg.cw cfg.env (nodeR cfg root o) (w : Int)
 def renderL (cfg : Cfg) : List R → Opts → Nat → List Seg
